@@ -28,10 +28,10 @@ def build_cases(chk):
         for key in sorted(by, key=str):
             grp = by[key]
             cases += rng.sample(grp, min(len(grp), 3 if key[2] else 2))
-        n = 150
+        n = 120
     else:
         cases = list(b)
-        n = 6000
+        n = 4000
     cases += [scen_proc.gen_case(rng, chk.tier) for _ in range(n)]
     cases += [scen_proc.heavy_log_case(rng, sig) for sig in ([9, 15] if chk.tier == 'quick' else [9, 15, 10, 1] * 5)]
     cases += [scen_proc.random_kill_case(rng, chk.tier) for _ in range(40 if chk.tier == 'quick' else 1200)]
